@@ -1157,12 +1157,41 @@ fn explore(ctx: &Ctx) {
                 }
                 Verdict::Violation { kind, what, ops } => {
                     ctx.eval();
+                    // SQL does not determine the answer of this query on this database (e.g. last_value among
+                    // tied peers, whose order depends on how the plan happens to sort): two different answers of
+                    // the two styles are then both admissible, and the comparison says nothing
+                    if kind == "rows_differ"
+                        && let Some(q) = &ast
+                        && let chk_sql::sqlmc::reference::RefOutcome::Ambiguous(why) = chk_sql::sqlmc::reference::evaluate(dbv, q)
+                    {
+                        ctx.count(&format!("skipped: SQL leaves the result open ({why})"), 1);
+                        continue;
+                    }
                     // is the difference explained exactly by the default frame of window functions with ORDER BY?
                     let explained = kind == "rows_differ"
                         && match (&ast, &sql_res) {
                             (Some(q), Ok(s)) => match render_with(&sctx, q, style, true).0 {
-                                Ok(df) => engine::run_df(df).map(|r| compare_engine_results(&r.rows, s, &spec).is_ok()).unwrap_or(false),
-                                Err(_) => false,
+                                Ok(df) => match engine::run_df(df) {
+                                    Ok(r) => {
+                                        let c = compare_engine_results(&r.rows, s, &spec);
+                                        if std::env::var_os("VERIF_C48_DEBUG").is_some() {
+                                            eprintln!("explicit-frame chain: {:?} -> {:?}", show_rows(&r.rows), c.as_ref().err());
+                                        }
+                                        c.is_ok()
+                                    }
+                                    Err(e) => {
+                                        if std::env::var_os("VERIF_C48_DEBUG").is_some() {
+                                            eprintln!("explicit-frame chain fails to run: {e:?}");
+                                        }
+                                        false
+                                    }
+                                },
+                                Err(e) => {
+                                    if std::env::var_os("VERIF_C48_DEBUG").is_some() {
+                                        eprintln!("explicit-frame chain refused: {e:?}");
+                                    }
+                                    false
+                                }
                             },
                             _ => false,
                         };
